@@ -12,11 +12,13 @@ META = {
     "level": "proof",
     "trusted_base": ["Python ast parser", "gmpy2.invert(x, m) * x == 1 (mod m)", "`% mod` preserves congruence", "pcstatic walker + exact polynomial arithmetic",
                      "checker-side affine EC arithmetic and Miller-Rabin (40 fixed bases) for the curve constants"],
-    "assumptions": ["scalar multiplication loops (Multiply, MultiplyAffine), the comb in BatchMultiplyG and Montgomery's array invariants in BatchInverse are not decided",
+    "assumptions": ["Montgomery's array invariants in BatchInverse are not decided (its use sites are: R-C11-FORMULA clears the shared inverse as a rational function)",
+                    "comb: the bit-decomposition identity sum_i 2^i * ((s >> i) & mask) = s for 0 <= s < 2^(teeth*steps) is a stated lemma; its side conditions are checked",
                     "primality of mod and n is probabilistic (error <= 4^-40)"],
     "explanation": ("Every formula block of ec_util.EcCurve is evaluated symbolically to polynomials (reductions stripped as congruences, inverses cleared as "
                     "rational functions) and compared with the chord-and-tangent law as an exact rational identity; special-case dispatch is checked path by path; "
-                    "the nine curve literals are validated with the checker's own arithmetic."),
+                    "the nine curve literals are validated with the checker's own arithmetic; the double-and-add loops are proved by induction on their stated invariant "
+                    "res + n*p in a group-coefficient domain, the generator comb by reduction, tiling and Horner obligations."),
 }
 MODN = "ec_util"
 INF = Seq([Const(None), Const(None)])
@@ -77,6 +79,10 @@ def run(ctx):
   rule_formula(ctx)
   rule_dispatch(ctx)
   rule_curves(ctx)
+  rule_scalar(ctx)
+  rule_comb(ctx)
+  ctx.expect("R-C11-COMB", 4, "reduction, multiplier, tiling, Horner")
+  ctx.expect("R-C11-SCALAR", 2, "Multiply and MultiplyAffine")
   ctx.expect("R-C11-FORMULA", 15, "15 formula blocks")
   ctx.expect("R-C11-DISPATCH", 12, "special-case tables")
   ctx.expect("R-C11-CURVES", 9, "nine curves")
@@ -603,3 +609,408 @@ def rule_curves(ctx):
     names[kw["name"]] = key
     ctx.record(R, MODN + ":CURVE_FACTORY", cname, not probs, "; ".join(probs) or
                "prime field (%d bits), non-singular, G on curve, n prime, n*G = inf, Hasse-consistent with h = 1, name matches id" % p.bit_length())
+
+
+# ------------------------------------------------------------------ SCALAR: double-and-add loops keep res + n * p invariant
+GROUP_OPS = {"Add": "add", "AddJacobian": "add", "Double": "dbl", "DoubleJacobian": "dbl", "Negate": "neg", "Subtract": "sub",
+             "AffineToJacobian": "id", "JacobianToAffine": "id"}
+
+
+def gcoef(v, zero=()):
+  """Group element denoted by a point expression as an integer-linear form over ghost points (formulas themselves: R-C11-FORMULA /
+  R-C11-DISPATCH).  None when the expression is not built from the curve's own point operations."""
+  if isinstance(v, Seq):
+    it = v.items
+    if len(it) == 2 and all(isinstance(x, Const) and x.v is None for x in it):
+      return Poly.const(0)
+    if len(it) == 3:
+      z = it[2]
+      zi = z.v if isinstance(z, Const) else (as_poly(z).as_int())
+      if zi == 0:
+        return Poly.const(0)
+    return None
+  p = as_poly(v)
+  if any(p == z for z in zero):
+    return Poly.const(0)
+  a = p.as_atom()
+  if a is None:
+    return None
+  if a.kind == "mcall" and a.args[0] == SELF and isinstance(a.args[1], Poly) and a.args[1].as_atom() is not None:
+    name = a.args[1].as_atom().args[0]
+    op = GROUP_OPS.get(name)
+    xs = [gcoef(x, zero) for x in a.args[2:]]
+    if op is None or any(x is None for x in xs):
+      return None
+    if op == "add" and len(xs) == 2:
+      return xs[0] + xs[1]
+    if op == "sub" and len(xs) == 2:
+      return xs[0] - xs[1]
+    if op == "dbl" and len(xs) == 1:
+      return xs[0] * 2
+    if op == "neg" and len(xs) == 1:
+      return -xs[0]
+    if op == "id" and len(xs) == 1:
+      return xs[0]
+    return None
+  if a.kind in ("param", "sym"):
+    return Poly.atom(Atom("pt", a))
+  return None
+
+
+def rule_scalar(ctx):
+  R = "R-C11-SCALAR"
+  repo = ctx.repo
+  for name in ("Multiply", "MultiplyAffine"):
+    f, w = walk(repo, name)
+    pp, pn = [P("param", x) for x in [q for q in f.params() if q != "self"][:2]]
+    target = pn * Poly.atom(Atom("pt", pp.as_atom()))          # n * P
+    probs = []
+    proved = []
+    loops = [i for i in w.loop_info.values() if isinstance(i["node"], ast.While)]
+    exit_K = {}       # id(after symbol of acc) -> (K, cnt after symbol)
+    for info in loops:
+      for vis in info["visits"]:
+        head, pre, after = vis["head"].env, vis["pre_env"], vis["after_env"]
+        paths = [bp for bp in info["body_paths"] if bp[4] is vis]
+        if not paths or any(k != "fall" for k, *_ in paths):
+          probs.append("loop at line %d is left by break/return inside the body" % info["node"].lineno)
+          continue
+        names = [x for x in info["modified"] if x in head and x in pre]
+        found = None
+        for cnt in names:
+          N = as_poly(head[cnt])
+          na = N.as_atom()
+          if na is None:
+            continue
+          F, Mo = sym.mk("fdiv", N, Poly.const(2)), sym.mk("mod", N, Poly.const(2))
+          for acc in names:
+            for run in names:
+              if len({acc, run, cnt}) < 3:
+                continue
+              A, Rn = gcoef(head[acc]), gcoef(head[run])
+              if A is None or Rn is None:
+                continue
+              good = True
+              for kind, val, s, since, v2 in paths:
+                A2, R2 = gcoef(s.env[acc]), gcoef(s.env[run])
+                if A2 is None or R2 is None or isinstance(s.env[cnt], Seq):
+                  good = False
+                  break
+                D = (A2 + as_poly(s.env[cnt]) * R2) - (A + N * Rn)
+                D = D.subst(na, F * 2 + Mo)
+                bit = None
+                for fc in s.facts[len(vis["head"].facts):]:
+                  if fc[0] == "cmp" and as_poly(fc[2]) == Mo and as_poly(fc[3]).as_int() == 0:
+                    bit = 0 if fc[1] == "Eq" else (1 if fc[1] == "NotEq" else None)
+                  if fc[0] == "cmp" and as_poly(fc[2]) == Mo and as_poly(fc[3]).as_int() == 1 and fc[1] in ("Eq", "NotEq"):
+                    bit = 1 if fc[1] == "Eq" else 0
+                if bit is not None:
+                  D = D.subst(Mo.as_atom(), Poly.const(bit))
+                if not D.is_zero():
+                  good = False
+                  break
+              if good:
+                found = (acc, run, cnt)
+                break
+            if found:
+              break
+          if found:
+            break
+        if not found:
+          probs.append("no assignment of (accumulator, running point, counter) makes acc + counter * point invariant over every path of the loop at line %d"
+                       % info["node"].lineno)
+          continue
+        acc, run, cnt = found
+        # entry: K = acc0 + cnt0 * run0 must be n * P ; the counter must start non-negative (floor halving never reaches 0 otherwise)
+        a0, r0 = gcoef(pre[acc]), gcoef(pre[run])
+        if a0 is None or r0 is None:
+          probs.append("initial accumulator / point is not a point expression")
+          continue
+        K = a0 + as_poly(pre[cnt]) * r0
+        if not (K - target).is_zero():
+          probs.append("on entry %s + %s * %s denotes %r, not n * p" % (acc, cnt, run, K))
+        c0 = as_poly(pre[cnt])
+        facts = list(vis["pre"].facts)
+        nonneg = (c0 == pn and any(fc == ("cmp", "GtE", pn, Poly.const(0)) or fc == ("cmp", "Gt", pn, Poly.const(0)) for fc in norm_facts(facts))) or \
+                 (c0 == -pn and any(fc in (("cmp", "Lt", pn, Poly.const(0)), ("cmp", "LtE", pn, Poly.const(0))) for fc in norm_facts(facts)))
+        if not nonneg:
+          probs.append("the counter %r is not known to be non-negative on entry (floor halving of a negative counter never terminates)" % c0)
+        # loop condition is `counter != 0`
+        hf = vis["head"].facts[len(vis["pre"].facts):]
+        if not any(fc[0] == "truthy" and as_poly(fc[1]) == as_poly(head[cnt]) or
+                   (fc[0] == "cmp" and fc[1] == "NotEq" and as_poly(fc[2]) == as_poly(head[cnt]) and as_poly(fc[3]).as_int() == 0) for fc in hf):
+          probs.append("the loop does not run until the counter is exhausted (condition is not `%s != 0`)" % cnt)
+        exit_K[repr(as_poly(after[acc]))] = (K, as_poly(after[cnt]))
+        proved.append("%s + %s * %s" % (acc, cnt, run))
+    if not loops:
+      probs.append("no double-and-add loop found")
+    # returns
+    nret = 0
+    for kind, val, s in w.terminals:
+      if kind != "return":
+        continue
+      nret += 1
+      facts = norm_facts(s.facts)
+      zero = [pp] if any(fc[0] == "cmp" and fc[1] == "Eq" and fc[2] == pp and isinstance(fc[3], Seq) and gcoef(fc[3]) is not None for fc in s.facts) else []
+      got = None
+      if isinstance(val, Seq):
+        got = gcoef(val, zero)
+      else:
+        pv = as_poly(val)
+        inner = pv
+        a = pv.as_atom()
+        while a is not None and a.kind == "mcall" and GROUP_OPS.get(a.args[1].as_atom().args[0] if isinstance(a.args[1], Poly) and a.args[1].as_atom() else None) == "id":
+          inner = a.args[2]
+          a = inner.as_atom()
+        ek = exit_K.get(repr(inner))
+        if ek is not None:
+          K, cafter = ek
+          if any((fc[0] == "falsy" and as_poly(fc[1]) == cafter) or (fc[0] == "cmp" and fc[1] == "Eq" and as_poly(fc[2]) == cafter and as_poly(fc[3]).as_int() == 0)
+                 for fc in s.facts):
+            got = K
+        else:
+          got = gcoef(val, zero)
+      if got is None:
+        probs.append("return at line %d is not a point expression the invariant covers" % getattr(s, "line", 0))
+        continue
+      want = target
+      if zero:
+        want = Poly.const(0)
+      D = got - want
+      # substitute the scalar when the path fixes it (n == 1, -n == 1)
+      for fc in s.facts:
+        if fc[0] == "cmp" and fc[1] == "Eq" and isinstance(fc[2], Poly) and isinstance(fc[3], Poly):
+          e = fc[2] - fc[3]
+          if e.degree_in(pn.as_atom()) == 1:
+            c1 = (e - e.subst(pn.as_atom(), Poly.const(0))).subst(pn.as_atom(), Poly.const(1))
+            ci = c1.as_int()
+            c0 = e.subst(pn.as_atom(), Poly.const(0)).as_int()
+            if ci in (1, -1) and c0 is not None:
+              D = D.subst(pn.as_atom(), Poly.const(-c0 * ci))
+      if not D.is_zero():
+        probs.append("a return denotes %r instead of n * p" % (got,))
+    ctx.record(R, f.where, "double-and-add invariant", not probs, "; ".join(sorted(set(probs))) or
+               "invariant %s = n * p holds on entry (both signs of n), is preserved by both parities of the counter (n = 2*(n//2) + n%%2) and gives the returned point at "
+               "counter 0; %d returns (incl. shortcuts) denote n * p" % (" / ".join(sorted(set(proved))), nret))
+
+
+def norm_facts(facts):
+  out = []
+  for fc in facts:
+    if fc[0] == "cmp":
+      out.append(("cmp", fc[1], fc[2] if isinstance(fc[2], Seq) else as_poly(fc[2]), fc[3] if isinstance(fc[3], Seq) else as_poly(fc[3])))
+    else:
+      out.append(fc)
+  return out
+
+
+# ------------------------------------------------------------------ COMB: BatchMultiplyG (Lim-Lee comb, Horner over the tooth offset)
+def scalar_in_range(v, order, facts):
+  """True when 0 <= v < order follows from the expression itself or the facts; else a reason string."""
+  p = as_poly(v)
+  a = p.as_atom()
+  if a is not None and a.kind == "mod" and as_poly(a.args[1]) == order:
+    return True
+  if a is not None and a.kind == "ite":
+    c = sym.ITE_CONDS.get(a.args[0].as_atom().args[0]) if isinstance(a.args[0], Poly) and a.args[0].as_atom() is not None else None
+    if c is None:
+      return "conditional expression with an unknown condition"
+    r1 = scalar_in_range(a.args[1], order, list(facts) + norm_facts(sym.facts_of(c, True)))
+    if r1 is not True:
+      return r1
+    return scalar_in_range(a.args[2], order, list(facts) + norm_facts(sym.facts_of(c, False)))
+  lo = hi = False
+  zero, m1 = Poly.const(0), Poly.const(-1)
+  for fc in facts:
+    if fc[0] != "cmp" or isinstance(fc[2], Seq) or isinstance(fc[3], Seq):
+      continue
+    _, op, x, y = fc
+    if (x == p and ((op == "GtE" and y == zero) or (op == "Gt" and y in (zero, m1)))) or (y == p and ((op == "LtE" and x == zero) or (op == "Lt" and x in (zero, m1)))):
+      lo = True
+    if (x == p and ((op == "Lt" and y == order) or (op == "LtE" and y == order - 1))) or (y == p and ((op == "Gt" and x == order) or (op == "GtE" and x == order - 1))):
+      hi = True
+  if lo and hi:
+    return True
+  if not lo:
+    return "the scalar %r may be negative when its bits are extracted (>> sign-extends: the comb then computes (s mod 2^(teeth*steps)) * G)" % (p,)
+  return "the scalar %r may exceed the order, bits above the highest tooth are dropped" % (p,)
+
+
+def rule_comb(ctx):
+  R = "R-C11-COMB"
+  repo = ctx.repo
+  f, w = walk(repo, "BatchMultiplyG")
+  S0 = P("param", [q for q in f.params() if q != "self"][0])
+  ORDER = sym.mk("attr", SELF, "n")
+  GEN = sym.mk("attr", SELF, "g")
+  fors = [i for i in w.loop_info.values() if isinstance(i["node"], ast.For) and i["visits"]]
+  outer = [i for i in fors if not isinstance(i["iter"], Seq) and as_poly(i["iter"]).as_atom() is not None and as_poly(i["iter"]).as_atom().kind == "range"]
+  inner = [i for i in fors if not isinstance(i["iter"], Seq) and as_poly(i["iter"]).as_atom() is not None and as_poly(i["iter"]).as_atom().kind == "enumerate"]
+  if len(outer) != 1 or len(inner) != 1:
+    raise Incomplete("BatchMultiplyG: expected one range loop over tooth offsets and one enumerate loop over scalars", f.where)
+  outer, inner = outer[0], inner[0]
+  # (1) scalars reduced
+  lst = as_poly(inner["iter"]).as_atom().args[0]
+  la = lst.as_atom()
+  kin = inner["visits"][0]["k"]
+  if la is not None and la.kind == "map" and la.args[2] == S0:
+    elt, bv = la.args[0], la.args[1]
+    if isinstance(bv, Poly):
+      bv = bv.as_atom()
+    x = sym.mk("idx", S0, Poly.atom(bv))
+    r = scalar_in_range(elt, ORDER, [])
+    same_len = True
+  elif lst == S0:
+    elt = None
+    r = "the scalars are used as passed in (no reduction modulo the order)"
+    same_len = True
+  else:
+    r, same_len, elt = "the comb does not iterate over the (reduced) input list", False, None
+  ctx.record(R, f.where, "scalars reduced to [0, n) before bit extraction", r is True, "every scalar is x % self.n (or guarded 0 <= x < n): zero, negative and >= order "
+             "scalars are mapped to their canonical representative, one per input position" if r is True else r)
+  # (2) multiplier = (s >> i) & mask ; points[j] = cache[multiplier] ; cache[m] = Multiply(g, m)
+  st_pts = [e for e in w.events if e.kind == "store" and as_poly(e.data["index"]) == as_poly(kin)]
+  cache = sym.mk("attr", SELF, "_cache")
+  mult = None
+  ok2, why2 = bool(st_pts), []
+  for e in st_pts:
+    va = as_poly(e.data["value"]).as_atom()
+    if va is None or va.kind != "idx" or va.args[0] != cache:
+      ok2 = False
+      why2.append("points[j] is not read from the multiples cache")
+      continue
+    mult = va.args[1]
+  st_cache = [e for e in w.events if e.kind == "store" and as_poly(e.data["base"]) == cache]
+  for e in st_cache:
+    idx = as_poly(e.data["index"])
+    want = sym.mk("mcall", SELF, P("lit", "Multiply"), GEN, idx)
+    if as_poly(e.data["value"]) != want:
+      ok2 = False
+      why2.append("cache[m] is filled with something other than Multiply(g, m)")
+  if not st_cache:
+    ok2 = False
+    why2.append("no cache fill found")
+  E = MASK = None
+  if mult is not None:
+    ma = mult.as_atom()
+    if ma is not None and ma.kind == "band" and len(ma.args) == 2:
+      for u, v in ((ma.args[0], ma.args[1]), (ma.args[1], ma.args[0])):
+        ua = u.as_atom()
+        if ua is not None and ua.kind == "shr":
+          sval, E, MASK = ua.args[0], ua.args[1], v
+      if E is None:
+        ok2 = False
+        why2.append("multiplier is not (s >> i) & mask")
+      else:
+        want_s = rebuild_elt(elt, bv, kin) if elt is not None else sym.mk("idx", S0, as_poly(kin))
+        if as_poly(sval) != as_poly(want_s):
+          ok2 = False
+          why2.append("the shifted value is not the j-th (reduced) scalar")
+    else:
+      ok2 = False
+      why2.append("multiplier is not (s >> i) & mask")
+  ctx.record(R, f.where, "points[j] = ((s_j >> i) & mask) * G", ok2, "; ".join(sorted(set(why2))) or
+             "cache[m] = Multiply(g, m) for the multiplier m = (s_j >> i) & mask of the j-th reduced scalar")
+  # (3) teeth: mask = sum(1 << t*steps), offsets i = steps-1 .. 0, teeth * steps >= bit length of the order
+  ra = as_poly(outer["iter"]).as_atom()
+  a0, b0, c0 = (list(ra.args) + [Poly.const(1)])[:3] if len(ra.args) >= 2 else (Poly.const(0), ra.args[0], Poly.const(1))
+  ok3, why3 = True, []
+  kout = as_poly(outer["visits"][0]["k"])
+  if c0.as_int() == -1 and b0.as_int() == -1:
+    STEPS = a0 + 1
+    ivar = a0 - kout
+    first = a0
+  elif c0.as_int() == 1 and a0.as_int() == 0:
+    STEPS, ivar, first = b0, kout, None
+  else:
+    STEPS = ivar = first = None
+    ok3 = False
+    why3.append("tooth offsets are not range(steps - 1, -1, -1)")
+  if ok3 and E is not None and as_poly(E) != ivar:
+    ok3 = False
+    why3.append("shift amount %r is not the offset of the current round" % (E,))
+  if ok3 and MASK is not None:
+    sa = as_poly(MASK).as_atom()
+    good = False
+    if sa is not None and sa.kind == "sum":
+      m = sa.args[0].as_atom()
+      if m is not None and m.kind == "map":
+        melt, mbv, msrc = m.args
+        if isinstance(mbv, Poly):
+          mbv = mbv.as_atom()
+        rs = msrc.as_atom()
+        if rs is not None and rs.kind == "range" and len(rs.args) == 3 and rs.args[0].as_int() == 0:
+          B, TS = rs.args[1], rs.args[2]
+          if melt == sym.mk("shl", Poly.const(1), Poly.atom(mbv) * TS):
+            if TS != STEPS:
+              why3.append("teeth are %r bits apart but %r offsets are processed (bits between are skipped or counted twice)" % (TS, STEPS))
+            elif B != sym.mk("bitlen", ORDER):
+              why3.append("teeth stop at bit %r, not at the bit length of the order" % (B,))
+            else:
+              good = True
+          else:
+            why3.append("mask summand is not a single bit 1 << t")
+    if not good:
+      ok3 = False
+      if not why3:
+        why3.append("mask is not sum(1 << t for t in range(0, n.bit_length(), steps))")
+  elif MASK is None:
+    ok3 = False
+  ctx.record(R, f.where, "teeth and offsets tile the bits of the order", ok3, "; ".join(sorted(set(why3))) or
+             "offsets i = steps-1 .. 0, teeth at 0, steps, 2*steps, .. < bitlen(n): every bit position below ceil(bitlen/steps)*steps >= bitlen(n) is (offset, tooth) exactly once")
+  # (4) Horner: res = points in the first round, res = BatchAddList(BatchDouble(res), points) afterwards; result is res after the last round
+  ok4, why4 = True, []
+  vis = outer["visits"][0]
+  paths = [bp for bp in outer["body_paths"] if bp[4] is vis]
+  n_first = n_next = 0
+  rname = None
+  rets = [t for t in w.terminals if t[0] == "return"]
+  for kind, val, s in rets:
+    for nm, sv in vis["after_env"].items():
+      if not isinstance(val, Seq) and as_poly(sv) == as_poly(val):
+        rname = nm
+  if rname is None:
+    ok4 = False
+    why4.append("the returned value is not the accumulator after the last round")
+  for kind, val, s, since, v2 in paths:
+    if kind != "fall":
+      ok4 = False
+      why4.append("round loop left early")
+      continue
+    if rname is None:
+      continue
+    newf = norm_facts(s.facts[len(vis["head"].facts):])
+    is_first = any(fc[0] == "cmp" and fc[1] == "Eq" and ((fc[2] == ivar and fc[3] == first) or (fc[3] == ivar and fc[2] == first)) for fc in newf) if first is not None else False
+    not_first = any(fc[0] == "cmp" and fc[1] == "NotEq" and ((fc[2] == ivar and fc[3] == first) or (fc[3] == ivar and fc[2] == first)) for fc in newf) if first is not None else False
+    rv = as_poly(s.env[rname]) if not isinstance(s.env[rname], Seq) else None
+    pts = [as_poly(e.data["base"]) for e in st_pts]
+    head_r = as_poly(vis["head"].env[rname]) if rname in vis["head"].env and not isinstance(vis["head"].env[rname], Seq) else None
+    pts_final = [as_poly(x) for k_, x in s.env.items() if not isinstance(x, Seq) and as_poly(x).as_atom() is not None and as_poly(x).as_atom().kind == "sym" and k_ != rname]
+    if is_first:
+      n_first += 1
+      if rv is None or rv not in pts_final:
+        ok4 = False
+        why4.append("first round does not start from the round's own points")
+    elif not_first:
+      n_next += 1
+      good = False
+      ra2 = rv.as_atom() if rv is not None else None
+      if ra2 is not None and ra2.kind == "mcall" and ra2.args[1] == P("lit", "BatchAddList") and len(ra2.args) == 4:
+        for u, v in ((ra2.args[2], ra2.args[3]), (ra2.args[3], ra2.args[2])):
+          if u == sym.mk("mcall", SELF, P("lit", "BatchDouble"), head_r) and v in pts_final:
+            good = True
+      if not good:
+        ok4 = False
+        why4.append("later rounds are not res = BatchAddList(BatchDouble(res), points)")
+    else:
+      ok4 = False
+      why4.append("a round is neither the first (offset steps-1) nor a later one")
+  if n_first < 1 or n_next < 1:
+    ok4 = False
+    why4.append("first/later round paths not both found")
+  ctx.record(R, f.where, "Horner accumulation over offsets", ok4, "; ".join(sorted(set(why4))) or
+             "res_j = points_j at offset steps-1, then res_j = 2*res_j + points_j down to offset 0: sum_i 2^i * ((s_j >> i) & mask) * G = s_j * G by the tiling above")
+
+
+def rebuild_elt(elt, bv, k):
+  return sym.rebuild(elt.deep_subst(bv, as_poly(k)))
